@@ -363,10 +363,10 @@ static void resp_case(FILE * f, int code, int hasinfo, const char * text, size_t
 #if USE_DEVICE_DEPENDENT_ERROR_INFORMATION && !USE_MEMORY_ALLOCATION_FREE
 /* static heap: the text and its terminator fill the heap exactly to its last byte; the source is not NUL-terminated there */
 static void resp_case_exact(FILE * f, int code, const char * text, size_t tlen) {
-    char * tmp = malloc(tlen + 2);
+    char * tmp = malloc(tlen);                 /* a counted text: exactly tlen bytes, nothing behind them may be read */
     fresh();
     SCPI_InitHeap(&ctx, heapbuf, tlen + 1);
-    memcpy(tmp, text, tlen); tmp[tlen] = 'Z'; tmp[tlen + 1] = 'Z';
+    memcpy(tmp, text, tlen);
     SCPI_ErrorPushEx(&ctx, (int16_t) code, tmp, tlen);
     __real_free(tmp);
     outn = 0;
